@@ -61,7 +61,7 @@ def DataFrame_filter (truth : Term → Bool) (rows_is_None : Bool) : Out :=
       Out.fall [eff0]
   else
     if truth (Term.sym "colname_value_pairs") then
-      let rows' : Term := (Term.app "Vector.fast([True], bool).repeat" [(Term.app ".nrow" [(Term.sym "self")])]);
+      let rows' : Term := (Term.app ".repeat" [(Term.app "Vector.fast" [(Term.app "list" [(Term.sym "True")]), (Term.sym "bool")]), (Term.app ".nrow" [(Term.sym "self")])]);
       let eff0 : Term := (Term.app "for" [(Term.app "tuple" [(Term.sym "colname"), (Term.sym "value")]), (Term.app ".items" [(Term.sym "colname_value_pairs")]), (Term.app "block" [(Term.app "assign" [(Term.sym "rows"), (Term.app "BitAnd" [(Term.sym "rows"), (Term.app "Eq" [(Term.app "getitem" [(Term.sym "self"), (Term.sym "colname")]), (Term.sym "value")])])])]), (Term.app "init" [(Term.sym "rows"), rows'])]);
       let rows' : Term := (Term.app "value-after-loop" [(Term.sym "rows"), eff0]);
       let rows' : Term := (Term.app "._parse_rows_from_boolean" [(Term.sym "self"), rows']);
@@ -89,7 +89,7 @@ def DataFrame_filter_out (truth : Term → Bool) (rows_is_None : Bool) : Out :=
       Out.fall [eff0]
   else
     if truth (Term.sym "colname_value_pairs") then
-      let rows' : Term := (Term.app "Vector.fast([True], bool).repeat" [(Term.app ".nrow" [(Term.sym "self")])]);
+      let rows' : Term := (Term.app ".repeat" [(Term.app "Vector.fast" [(Term.app "list" [(Term.sym "True")]), (Term.sym "bool")]), (Term.app ".nrow" [(Term.sym "self")])]);
       let eff0 : Term := (Term.app "for" [(Term.app "tuple" [(Term.sym "colname"), (Term.sym "value")]), (Term.app ".items" [(Term.sym "colname_value_pairs")]), (Term.app "block" [(Term.app "assign" [(Term.sym "rows"), (Term.app "BitAnd" [(Term.sym "rows"), (Term.app "Eq" [(Term.app "getitem" [(Term.sym "self"), (Term.sym "colname")]), (Term.sym "value")])])])]), (Term.app "init" [(Term.sym "rows"), rows'])]);
       let rows' : Term := (Term.app "value-after-loop" [(Term.sym "rows"), eff0]);
       let rows' : Term := (Term.app "._parse_rows_from_boolean" [(Term.sym "self"), rows']);
@@ -129,7 +129,7 @@ def DataFrame_slice_off_decorators : List String := ["deco.new_from_generator"]
 
 /-- dataiter/data_frame.py: DataFrame.drop_na (sha256 of the function source: 16b3ee3bca8991c0) -/
 def DataFrame_drop_na (truth : Term → Bool) : Out :=
-  let drop' : Term := (Term.app "Vector.fast([False], bool).repeat" [(Term.app ".nrow" [(Term.sym "self")])]);
+  let drop' : Term := (Term.app ".repeat" [(Term.app "Vector.fast" [(Term.app "list" [(Term.sym "False")]), (Term.sym "bool")]), (Term.app ".nrow" [(Term.sym "self")])]);
   let eff0 : Term := (Term.app "for" [(Term.sym "colname"), (Term.sym "colnames"), (Term.app "block" [(Term.app "assign" [(Term.sym "drop"), (Term.app "BitOr" [(Term.sym "drop"), (Term.app ".is_na" [(Term.app "getitem" [(Term.sym "self"), (Term.sym "colname")])])])])]), (Term.app "init" [(Term.sym "drop"), drop'])]);
   let drop' : Term := (Term.app "value-after-loop" [(Term.sym "drop"), eff0]);
   Out.ret [eff0] (Term.app ".filter_out" [(Term.sym "self"), drop'])
